@@ -142,7 +142,9 @@ bool Instance::parse_pretend_valid_expr(const char* expr) {
     uint160 keyid;
     bool got_sig = false;
     // COMPILER_CTX.symbolic_outputs = true;
-    while (*c) {
+    // (every element is looked at, also an empty one at the end: "sig:" is the pair of sig and the empty key, like ":key" is
+    // the pair of the empty signature and key, and a list that ends in a comma - or is empty - lacks a pair)
+    for (;;) {
         while (*c && *c != ',' && *c != ':') ++c;
         char* cs = strndup(p, c-p);
         Value v = Value(cs);
@@ -178,7 +180,8 @@ bool Instance::parse_pretend_valid_expr(const char* expr) {
             // pretend_valid_map[sig] = valtype(key.begin(), key.end());
             break;
         }
-        p = c = c + (*c != 0);
+        if (!*c) break;
+        p = c = c + 1;
     }
     return true;
 }
